@@ -7,7 +7,7 @@ use crate::s_ops::{Node, Op};
 use crate::s_val::*;
 use std::collections::VecDeque;
 
-pub const MAX_SUBSCRIPTIONS_PER_SOURCE: usize = 24;
+pub const MAX_SUBSCRIPTIONS_PER_SOURCE: usize = 100;
 pub const ENDLESS_CAP: usize = 200;
 
 #[derive(Clone, Debug, PartialEq)]
